@@ -586,9 +586,9 @@ func (o *Obligation) solveGoal(opts SolveOpts) {
 		o.Result, o.Solver, o.TimeS = r, first.Name, time.Since(t0).Seconds()
 		return
 	}
-	r, out, _ := runSolver(first, o.Script(first.Name, short, wantModel), opts.Dir, o.Name, short)
+	r, out, el1 := runSolver(first, o.Script(first.Name, short, wantModel), opts.Dir, o.Name, short)
 	if r == want || r == "sat" {
-		o.Result, o.Solver, o.TimeS = r, first.Name, time.Since(t0).Seconds()
+		o.Result, o.Solver, o.TimeS = r, first.Name, el1
 		if r == "sat" {
 			o.Model = out
 		}
@@ -605,8 +605,12 @@ func (o *Obligation) solveGoal(opts SolveOpts) {
 		}()
 	}
 	best := res{r: "unknown"}
+	maxT := 0.0
 	for range order {
 		x := <-ch
+		if x.t > maxT {
+			maxT = x.t
+		}
 		if x.r == "unsat" || x.r == "sat" {
 			best = x
 			break
@@ -618,7 +622,8 @@ func (o *Obligation) solveGoal(opts SolveOpts) {
 			best = x
 		}
 	}
-	o.Result, o.Solver, o.TimeS = best.r, best.solver, time.Since(t0).Seconds()
+	// solver time (process time of the slowest member seen before the verdict), not time spent waiting for a core
+	o.Result, o.Solver, o.TimeS = best.r, best.solver, el1+maxT
 	if best.r == "sat" || strings.HasPrefix(best.r, "error") {
 		o.Model = best.out
 	}
